@@ -413,6 +413,10 @@ def search(ctx):
                  ' -> oracle sweep on random_split / recombine (list, np, all fields)')
     rng = ctx.subrng('search')
     fields = small_fields() + [Fld(G.P64), Fld(2, 8), Fld(3, 5), Fld(11), Fld(2, 4)]
+    # two fields of the SAME order with different moduli, used in turn with the same x-coordinates: anything cached per
+    # (order, points) instead of per field shows up as a wrong recombination in the second field
+    fields += [Fld(2, 8, lean_tables=False, modulus=m_) for m_ in (283, 285)] + \
+              [Fld(3, 2, lean_tables=False, modulus=m_) for m_ in (10, 14)]
     for _ in range(ctx.scale(3000, 20000)):
         F = rng.choice(fields)
         m = rng.randrange(1, min(F.q - 1, 8) + 1)
